@@ -161,7 +161,9 @@ func c05r2(r *R) {
 			why = append(why, "ProxyURL set but not consulted (or consulted when nil)")
 		}
 		direct := p.eventIndex(0, "call", eq(`dyn:$0.DialContext((*net/http.Request).Context($1), "tcp", $1.URL.Host)`)) >= 0
-		proxied := p.hasCond(func(c string) bool { return c == "!(dyn:$0.ProxyURL($1)#0 == nil)" || c == "(dyn:$0.ProxyURL($1)#0 != nil)" })
+		proxied := p.hasCond(func(c string) bool {
+			return c == "!(dyn:$0.ProxyURL($1)#0 == nil)" || c == "(dyn:$0.ProxyURL($1)#0 != nil)"
+		})
 		if direct && proxied {
 			why = append(why, "target dialled directly although a proxy was selected")
 		}
@@ -306,7 +308,7 @@ func c05r4(r *R) {
 		if pi := p.eventIndex(0, "call", prefix("(pac.Proxies).First(")); pi >= 0 && p.Events[pi].Desc != "(pac.Proxies).First("+find+"#0)" {
 			why = append(why, "the result list that is parsed is not this evaluation's answer: "+p.Events[pi].Desc)
 		}
-		if p.holds("(" + find + "#1 != nil)") && !(p.Ret[0] == "nil" && p.Ret[1] == find+"#1") {
+		if p.holds("("+find+"#1 != nil)") && !(p.Ret[0] == "nil" && p.Ret[1] == find+"#1") {
 			why = append(why, "resolver error is not returned")
 		}
 		fe := "(pac.Proxies).First(" + find + "#0)#1"
@@ -342,7 +344,9 @@ func c05r4(r *R) {
 		if len(p.Ret) < 2 {
 			continue
 		}
-		if p.hasCond(func(c string) bool { return strings.HasPrefix(c, "(net.SplitHostPort(") && strings.HasSuffix(c, "#2 != nil)") }) && p.Ret[len(p.Ret)-1] == "nil" {
+		if p.hasCond(func(c string) bool {
+			return strings.HasPrefix(c, "(net.SplitHostPort(") && strings.HasSuffix(c, "#2 != nil)")
+		}) && p.Ret[len(p.Ret)-1] == "nil" {
 			why = append(why, "entry with an unparsable host:port is accepted")
 		}
 		if p.hasCond(func(c string) bool { return strings.HasSuffix(c, "#2") && strings.HasPrefix(c, "!strings.Cut(") }) && p.Ret[len(p.Ret)-1] == "nil" &&
@@ -497,11 +501,11 @@ func c05r5(r *R) {
 
 func c05r6(r *R) {
 	allowed := map[string]string{
-		"(*forwarder.Dialer).dialContext":        "the forwarder dialler (metrics, retries, redirect applied by its caller)",
-		"(*martian.Proxy).init$1":                "default dialler of a bare martian.Proxy; forwarder always supplies its own",
-		"(*martian/h2.Config).Proxy":             "HTTP/2 relay dials its origin itself; unreachable: nothing installs an H2 configuration (checked below)",
-		"command/ready.Command$1$1":              "readiness probe over a unix socket",
-		"(*command/ready.command).runE$1":        "readiness probe over a unix socket",
+		"(*forwarder.Dialer).dialContext":          "the forwarder dialler (metrics, retries, redirect applied by its caller)",
+		"(*martian.Proxy).init$1":                  "default dialler of a bare martian.Proxy; forwarder always supplies its own",
+		"(*martian/h2.Config).Proxy":               "HTTP/2 relay dials its origin itself; unreachable: nothing installs an H2 configuration (checked below)",
+		"command/ready.Command$1$1":                "readiness probe over a unix socket",
+		"(*command/ready.command).runE$1":          "readiness probe over a unix socket",
 		"(*dialvia.SOCKS5ProxyDialer).DialContext": "SOCKS5 client library dialling through the given dial function",
 	}
 	n := 0
